@@ -13,7 +13,7 @@ static const char *const AKN[AK__COUNT] = {"schar", "uchar", "short", "ushort", 
     "u16string", "u32string", "u8string", "string_view", "wstring_view", "u16string_view", "u32string_view", "u8string_view", "null_cstr", "raw_bytes"};
 const char *arg_kind_name(int k) { return (k >= 0 && k < AK__COUNT) ? AKN[k] : "?"; }
 static const char *const SKN[SK__COUNT] = {"printf(FILE*)", "writef<char>", "writef<wchar_t>", "writef<char16_t>", "writef<char32_t>", "ostream<<", "wostream<<",
-    "u16ostream<<", "u32ostream<<", "istream>>", "wistream>>", "format_latin_1", "printf(stdout)"};
+    "u16ostream<<", "u32ostream<<", "istream>>", "wistream>>", "format_latin_1", "printf(stdout)", "format(validation)/_stfmt"};
 const char *sink_name(int k) { return (k >= 0 && k < SK__COUNT) ? SKN[k] : "?"; }
 static const char *const PCN[PC__COUNT] = {"overflow_inside_padding_run", "overflow_between_surrogate_units", "eof_exactly_at_token_end", "refill_boundary_inside_multibyte_char",
     "flush_or_overflow_inside_call", "chunk_not_self_contained_generated", "invalid_token_rejected", "skipped_char16_sink_output_contains_U+FFFF", "extraction_with_field_width", "file_sink_with_stale_error_indicator", "file_sink_after_an_earlier_call_threw", "ostream_sink_with_pending_width_and_fill"};
@@ -426,6 +426,18 @@ RunResult run_plan(const Plan &p, Stats *st, std::vector<uint64_t> *nt_pairs) {
             if (!accepted) break;
             if (ex != X_NONE) { set_viol(V, "latin1_differs", site, std::string("ST::format_latin_1 threw ") + EXN[ex]); break; }
             if (got != latin1_ref(R)) set_viol(V, "latin1_differs", site, "format_latin_1 " + first_diff(got, latin1_ref(R)));
+            break;
+        }
+        case SK_FORMAT_V: {     // the other spellings of the in-memory sink: format(validation, ...), "..."_stfmt(...)
+            std::string got; const unsigned which = k.a % 4;
+            Ex ex = guarded(budget, st, [&] { with_args(args, [&](const auto &...a) {
+                using namespace ST::literals;
+                ST::string r = which == 0 ? ST::format(ST::check_validity, fmt.c_str(), a...) : which == 1 ? ST::format(ST::substitute_invalid, fmt.c_str(), a...)
+                             : which == 2 ? ST::format(ST::assume_valid, fmt.c_str(), a...) : operator"" _stfmt(fmt.c_str(), fmt.size())(a...);
+                got.assign(r.c_str(), r.size()); }); });
+            if (!accepted || !Rwf) break;       // (for output that is not strictly well-formed the modes legitimately differ)
+            if (ex != X_NONE) { set_viol(V, "sink_bytes_differ", site, std::string("this spelling of the call threw ") + EXN[ex] + " for a call ST::format accepts"); break; }
+            if (got != R) set_viol(V, "sink_bytes_differ", site, "result " + first_diff(got, R));
             break;
         }
         case SK_OS8: case SK_OSW: case SK_OS16: case SK_OS32: {
